@@ -123,6 +123,12 @@ class Ctx:
         I = Interp(self.mods, ext, dict(registry or {}))
         return I
 
+    @staticmethod
+    def _with_replayer(r, replayer):
+        if replayer and not getattr(r, "replayer", None):
+            r.replayer = replayer
+        return r
+
     def verify(self, *a, **kw):
         res = self._verify(*a, **kw)
         rp = kw.get('replayer')
@@ -208,11 +214,18 @@ class Ctx:
             if feasible:
                 self.canaries += 1
         except Unsupported as e:
-            return [self.add(ObResult(f"{prefix}/{name}/vc-generation", "unknown",
-                                      detail=f"outside the supported subset: {e}"))]
+            return [self._with_replayer(self.add(ObResult(f"{prefix}/{name}/vc-generation", "unknown",
+                                      detail=f"outside the supported subset: {e}")), replayer)]
         except PyRaise as e:
-            return [self.add(ObResult(f"{prefix}/{name}/vc-generation", "unknown",
-                                      detail=f"uncaught {e.exc} during setup: {e.msg}"))]
+            return [self._with_replayer(self.add(ObResult(f"{prefix}/{name}/vc-generation", "unknown",
+                                      detail=f"uncaught {e.exc} during setup: {e.msg}")), replayer)]
+        except (AttributeError, TypeError, KeyError, IndexError, ValueError, z3.Z3Exception) as e:
+            # a construct the transfer functions do not anticipate: undecided (the native layer still gets its turn), never a pass
+            import os
+            if os.environ.get("VERIF_DEBUG"):
+                traceback.print_exc()
+            return [self._with_replayer(self.add(ObResult(f"{prefix}/{name}/vc-generation", "unknown",
+                                      detail=f"outside the supported subset (engine: {type(e).__name__}: {str(e)[:200]})")), replayer)]
         for (m, q) in sorted(I.inlined):
             self.fuc(m, q, role="inlined")
         self.last_obligations = list(I.obligations)
